@@ -366,7 +366,11 @@ def rules(tier):
             # mutation sweep: keyspace cells counted by 2 / started at 1
             ('C18.R17', _shared_rule('c18', 'r17_keyspace_recursion_counts')),
             # mutation sweep: a level table written with the same column twice
-            ('C18.R18', _shared_rule('c18', 'r18_level_table_columns'))]
+            ('C18.R18', _shared_rule('c18', 'r18_level_table_columns')),
+            # C18-eb: _find_cp memoised without bottom_level
+            ('C18.R19', _shared_rule('c10', 'r4_exact_last_transition')),
+            # C18-ea: CP.level written without encoding=
+            ('C18.R20', _shared_rule('c07', 'r2_encoding_agreement'))]
 
 
 META = {
